@@ -153,4 +153,17 @@ example : monitorFile { reflink := .never } 5 [.create, .truncate 5, .clone fals
 example : monitorFile {} 5 [.create, .truncate 5, .clone false, .fin .chmod, .data, .fin .utimens] = false := by decide
 example : monitorFile {} 5 [.create, .truncate 5, .clone false, .data, .data, .fin .setxattrs, .fin .chmod, .fin .utimens] = true := by decide
 
+/-- The complete decision table of `try_reflink`, stated outright: the outcome is `cloned` exactly when a clone
+request was issued and the kernel accepted it (never under `never`, never without the Linux backend); `always`
+never ends in a data copy; `never` always does. -/
+theorem decision_table (m : Reflink) (linux : Bool) (ans : CloneAns) :
+    ((tryReflink m linux ans).2 = .cloned ↔ m ≠ .never ∧ linux = true ∧ ans = .ok) ∧
+    ((tryReflink m linux ans).1 = true ↔ m ≠ .never ∧ linux = true) ∧
+    (m = .always → (tryReflink m linux ans).2 ≠ .copy) ∧
+    (m = .never → (tryReflink m linux ans).2 = .copy) ∧
+    (m = .auto → linux = false → (tryReflink m linux ans).2 = .copy) := by
+  cases m <;> cases linux <;> cases ans with
+  | ok => simp [tryReflink, classifyClone]
+  | err e => cases e <;> simp [tryReflink, classifyClone]
+
 end Xcp.C15
